@@ -34,6 +34,10 @@ func (o *Once) Do(f func()) {
 	}
 }
 
+// OnLock, when non-nil, is called before every RWMutex.Lock ("W") / RLock ("R"); a scenario may
+// park the caller there to interleave goroutines at lock granularity. No-op when unset.
+var OnLock func(kind string)
+
 type RWMutex struct {
 	mu      Mutex
 	readers int
@@ -49,6 +53,9 @@ func (rw *RWMutex) wake() {
 	}
 }
 func (rw *RWMutex) Lock() {
+	if f := OnLock; f != nil {
+		f("W")
+	}
 	for {
 		rw.mu.Lock()
 		if !rw.writer && rw.readers == 0 {
@@ -64,6 +71,9 @@ func (rw *RWMutex) Lock() {
 }
 func (rw *RWMutex) Unlock() { rw.mu.Lock(); rw.writer = false; rw.wake(); rw.mu.Unlock() }
 func (rw *RWMutex) RLock() {
+	if f := OnLock; f != nil {
+		f("R")
+	}
 	for {
 		rw.mu.Lock()
 		if !rw.writer {
